@@ -1,4 +1,5 @@
 import PugModel.Tpl.Exec
+import PugProofs.Props.C08
 /-!
 # C07 — rendering is a pure, deterministic function of template and data
 
@@ -71,5 +72,13 @@ theorem C07_explicit_order (i1 i2 : List (String × Val)) (o : List String) (ho 
     (mapKeys { items := i1, order := o }).1 = (mapKeys { items := i2, order := o }).1 := by
   have : o.length > 0 := by cases o with | nil => exact absurd rfl ho | cons _ _ => simp
   simp [mapKeys, this]
+
+/-- **C07 (history independence: a render leaves nothing behind).** The complete set of writes to engine / template / package
+state in the functions a Render can reach, regenerated from the Go source on every run, consists of the listed per-call
+writes only: there is no cache, counter, pool or memo table through which one render could influence a later one. -/
+theorem C07_render_writes_nothing_shared :
+    Gen.renderPathWrites_ok = true ∧ Gen.renderReach_ok = true ∧
+    Gen.renderPathWrites.all (fun w => Pug.Props.C08.perCallWrites.contains w) = true :=
+  Pug.Props.C08.C08_render_path_writes_nothing_shared
 
 end Pug.Props.C07
